@@ -167,7 +167,23 @@ func suiteResource(r *Rng, n int, thorough bool, o *Out) {
 		id2 := "1"
 		differ := "same"
 		fields := typ.Fields()
-		switch r.IntN(8) {
+		switch r.IntN(10) {
+		case 8, 9: // null against a pointer to the zero value of a nullable attribute: different values
+			for _, k := range sortedKeys(typ.Attrs) {
+				at := typ.Attrs[k]
+				if !at.Nullable {
+					continue
+				}
+				a.Set(k, reflect.Zero(goTypeOf(at.Type, true)).Interface())
+				pz := reflect.New(goTypeOf(at.Type, false))
+				if at.Type == jsonapi.AttrTypeBytes && r.bool() {
+					pz.Elem().Set(reflect.ValueOf([]byte{}))
+				}
+				vals2[k] = pz.Interface()
+				differ = "value"
+				o.stat("equal.null-vs-zero")
+				break
+			}
 		case 7: // nil against empty byte strings: the same value
 			for k, at := range typ.Attrs {
 				if at.Type == jsonapi.AttrTypeBytes && !at.Nullable {
